@@ -11,6 +11,7 @@ import (
 	"io"
 	"os"
 	"os/exec"
+	"regexp"
 	"strconv"
 	"strings"
 	"sync/atomic"
@@ -26,15 +27,18 @@ type Solver struct {
 	timeout    int // ms per query
 	buf        strings.Builder
 	transcript strings.Builder
+	base       strings.Builder // base-level script of this run (for fall-back solvers)
 
-	Queries   int
-	Sat       int
-	Unsat     int
-	Unknown   int
-	Errors    int
-	Time      time.Duration
-	MaxQuery  time.Duration
-	dumpQuery func(string)
+	Queries      int
+	Fallbacks    int
+	firstTimeout int
+	Sat          int
+	Unsat        int
+	Unknown      int
+	Errors       int
+	Time         time.Duration
+	MaxQuery     time.Duration
+	dumpQuery    func(string)
 }
 
 var solverArgv = defaultSolver()
@@ -92,12 +96,15 @@ func (s *Solver) Close() {
 	}
 }
 
+var timeoutOpt = regexp.MustCompile(`\(set-option :timeout \d+\)\n`)
+
 var dumpSlowDir = os.Getenv("GOSYM_DUMP_SLOW")
 var dumpSeq atomic.Int64
 
 // Reset starts a fresh context for a new run.
 func (s *Solver) Reset() {
 	s.buf.Reset()
+	s.base.Reset()
 	s.transcript.Reset()
 	s.emitted = map[int]bool{}
 	if s.isCvc5() {
@@ -165,6 +172,10 @@ func (s *Solver) Check(extra *Term, wants []*Term) (string, map[*Term]uint64) {
 			ws = append(ws, w)
 		}
 	}
+	s.base.WriteString(s.buf.String())
+	if s.firstTimeout > 0 && s.firstTimeout < s.timeout && !s.isCvc5() {
+		fmt.Fprintf(&s.buf, "(set-option :timeout %d)\n", s.firstTimeout)
+	}
 	fmt.Fprintf(&s.buf, "(push 1)\n(assert %s)\n(check-sat)\n", extra.ref())
 	q := s.buf.String()
 	if dumpSlowDir != "" {
@@ -198,6 +209,12 @@ func (s *Solver) Check(extra *Term, wants []*Term) (string, map[*Term]uint64) {
 		}
 	}
 	io.WriteString(s.in, "(pop 1)\n")
+	if res == "unknown" || res == "timeout" {
+		if r2, m2 := s.fallback(extra, ws); r2 == "sat" || r2 == "unsat" {
+			res, model = r2, m2
+			s.Fallbacks++
+		}
+	}
 	d := time.Since(t0)
 	if dumpSlowDir != "" {
 		if d > 3*time.Second {
@@ -350,4 +367,76 @@ func litBits(f string) string {
 
 func isHex(c byte) bool {
 	return c >= '0' && c <= '9' || c >= 'a' && c <= 'f' || c >= 'A' && c <= 'F'
+}
+
+// fallback re-decides a query the primary solver gave up on with a portfolio of other back ends
+// (cvc5 with the integer encoding of bit-vectors, cvc5 bit-blasting, and the primary again with the
+// full time-out). Each gets a standalone script: the base-level context of this run plus the query.
+func (s *Solver) fallback(extra *Term, ws []*Term) (string, map[*Term]uint64) {
+	var sb strings.Builder
+	sb.WriteString(s.base.String())
+	fmt.Fprintf(&sb, "(assert %s)\n(check-sat)\n", extra.ref())
+	if len(ws) > 0 {
+		var rs []string
+		for _, w := range ws {
+			rs = append(rs, w.ref())
+		}
+		fmt.Fprintf(&sb, "(get-value (%s))\n", strings.Join(rs, " "))
+	}
+	body := strings.ReplaceAll(sb.String(), "(reset)\n", "")
+	body = timeoutOpt.ReplaceAllString(body, "")
+	f, err := os.CreateTemp("", "gosym-q-*.smt2")
+	if err != nil {
+		return "unknown", nil
+	}
+	defer os.Remove(f.Name())
+	hasFP := strings.Contains(body, "FloatingPoint") || strings.Contains(body, "to_fp")
+	type cand struct {
+		argv []string
+		pre  string
+	}
+	secs := fmt.Sprint(max(s.timeout/1000, 1))
+	var cands []cand
+	if _, err := exec.LookPath("cvc5"); err == nil {
+		if !hasFP {
+			cands = append(cands, cand{[]string{"cvc5", "--produce-models", "--solve-bv-as-int=sum", "--tlimit=" + fmt.Sprint(s.timeout)}, "(set-logic ALL)\n"})
+		}
+		cands = append(cands, cand{[]string{"cvc5", "--produce-models", "--tlimit=" + fmt.Sprint(s.timeout)}, "(set-logic ALL)\n"})
+	}
+	cands = append(cands, cand{append(append([]string{}, s.argv[0]), "-T:"+secs), "(set-option :timeout " + fmt.Sprint(s.timeout) + ")\n"})
+	if alt, err := exec.LookPath("z3"); err == nil && alt != s.argv[0] {
+		cands = append(cands, cand{[]string{alt, "-T:" + secs}, ""})
+	}
+	for _, cd := range cands {
+		pre := cd.pre
+		if strings.HasPrefix(cd.argv[0], "cvc5") {
+			pre = "(set-option :produce-models true)\n" + pre
+		}
+		os.WriteFile(f.Name(), []byte(pre+body), 0o644)
+		cmd := exec.Command(cd.argv[0], append(cd.argv[1:], f.Name())...)
+		out, _ := cmd.CombinedOutput()
+		txt := string(out)
+		first := strings.TrimSpace(strings.SplitN(txt, "\n", 2)[0])
+		if first == "unsat" {
+			return "unsat", nil
+		}
+		if strings.Contains(txt, "(error") {
+			continue
+		}
+		if first == "sat" {
+			model := map[*Term]uint64{}
+			if len(ws) > 0 {
+				rest := strings.SplitN(txt, "\n", 2)
+				if len(rest) < 2 {
+					continue
+				}
+				parseValues(rest[1], ws, model)
+				if len(model) < len(ws) {
+					continue
+				}
+			}
+			return "sat", model
+		}
+	}
+	return "unknown", nil
 }
